@@ -242,37 +242,62 @@ func (m *Machine) OpExtend(t *rapid.T) {
 	if internal {
 		branch = 1
 	}
-	last := int(a.Next[branch]) + rapid.IntRange(-2, 4).Draw(t, "extendBy")
-	if last < 0 {
-		last = 0
+	// one recovery batch may find addresses on both branches of an account:
+	// a third of the extensions extend the other branch too, in the same
+	// database transaction
+	branches := []uint32{branch}
+	if rapid.IntRange(0, 2).Draw(t, "bothBranches") == 0 {
+		branches = append(branches, 1-branch)
+	}
+	lasts := map[uint32]int{}
+	for _, b := range branches {
+		last := int(a.Next[b]) + rapid.IntRange(-2, 4).Draw(t, "extendBy")
+		if last < 0 {
+			last = 0
+		}
+		lasts[b] = last
 	}
 	err, committed := m.Tx(m.takeFate(), func(ns walletdb.ReadWriteBucket) error {
-		if internal {
-			return m.scoped(s.Scope).ExtendInternalAddresses(ns, a.Num, uint32(last))
+		for _, b := range branches {
+			var err error
+			if b == 1 {
+				err = m.scoped(s.Scope).ExtendInternalAddresses(ns, a.Num, uint32(lasts[b]))
+			} else {
+				err = m.scoped(s.Scope).ExtendExternalAddresses(ns, a.Num, uint32(lasts[b]))
+			}
+			if err != nil {
+				return err
+			}
 		}
-		return m.scoped(s.Scope).ExtendExternalAddresses(ns, a.Num, uint32(last))
+		return nil
 	})
-	m.Case.Logf("extend scope=%v acct=%d(watch-only=%v) branch=%d to=%d (next was %d) locked=%v -> err=%v", s.Scope, a.Num, a.WatchOnly, branch, last, a.Next[branch], m.Locked, err)
-	if err != nil {
-		m.Violation("extending scope %v account %d branch %d to index %d failed: %v", s.Scope, a.Num, branch, last, err)
+	if len(branches) > 1 {
+		m.N["extend-both-branches"]++
 	}
-	if !committed && uint32(last) >= a.Next[branch] {
-		m.N["extend-rolled-back"]++
-		if m.KnownF22 != nil && m.KnownF22() {
-			m.Case.Logf("  rolled back: manager reloaded [known finding F22: indices advance before the commit]")
-			m.Restart()
+	for _, branch := range branches {
+		last := lasts[branch]
+		m.Case.Logf("extend scope=%v acct=%d(watch-only=%v) branch=%d to=%d (next was %d) locked=%v same-tx-branches=%d -> err=%v", s.Scope, a.Num, a.WatchOnly, branch, last, a.Next[branch], m.Locked, len(branches), err)
+		if err != nil {
+			m.Violation("extending scope %v account %d branch %d to index %d failed: %v", s.Scope, a.Num, branch, last, err)
 		}
-	}
-	if committed && uint32(last) >= a.Next[branch] {
-		for i := a.Next[branch]; i <= uint32(last); i++ {
-			is := m.OracleAddr(a, branch, i)
-			is.ViaExt = true
-			m.addIssued(is)
+		if !committed && uint32(last) >= a.Next[branch] {
+			m.N["extend-rolled-back"]++
+			if m.KnownF22 != nil && m.KnownF22() {
+				m.Case.Logf("  rolled back: manager reloaded [known finding F22: indices advance before the commit]")
+				m.Restart()
+			}
 		}
-		m.N["extended"] += last + 1 - int(a.Next[branch])
-		a.Next[branch] = uint32(last) + 1
-		if !m.Locked {
-			m.N["extended-while-unlocked"]++
+		if committed && uint32(last) >= a.Next[branch] {
+			for i := a.Next[branch]; i <= uint32(last); i++ {
+				is := m.OracleAddr(a, branch, i)
+				is.ViaExt = true
+				m.addIssued(is)
+			}
+			m.N["extended"] += last + 1 - int(a.Next[branch])
+			a.Next[branch] = uint32(last) + 1
+			if !m.Locked {
+				m.N["extended-while-unlocked"]++
+			}
 		}
 	}
 }
@@ -356,6 +381,13 @@ func (m *Machine) OpDerivePath(t *rapid.T) {
 				ma.Address().EncodeAddress(), want.Addr)
 		}
 		m.checkPriv("derive-by-path", ma, want)
+		// an address object handed out while locked is kept: once the manager
+		// is unlocked the same object must give access to the seed's key (it
+		// is queued for derivation at the next Unlock)
+		if m.Locked && len(m.Held) < 8 {
+			m.Held = append(m.Held, HeldAddr{MA: ma, Is: want})
+			m.N["held-derived-while-locked"]++
+		}
 	})
 	m.N["derive-path"]++
 }
@@ -832,6 +864,18 @@ func (m *Machine) OpRename(t *rapid.T) {
 		a.Name = name
 		m.N["rename"]++
 	}
+}
+
+// OpInvalidate drops the cached state of one account, as the wallet does after
+// a rolled-back recovery batch and after a dry-run account import
+// (ScopedKeyManager.InvalidateAccountCache: "forcing a database read"). It
+// changes nothing a caller may observe, so the model stays as it is.
+func (m *Machine) OpInvalidate(t *rapid.T) {
+	s := m.drawScope(t)
+	a := m.drawAcct(t, s)
+	m.scoped(s.Scope).InvalidateAccountCache(a.Num)
+	m.Case.Logf("invalidate-account-cache scope=%v acct=%d", s.Scope, a.Num)
+	m.N["invalidate"]++
 }
 
 func (m *Machine) nextWIF(t *rapid.T, compressed bool) *btcutil.WIF {
